@@ -1,14 +1,14 @@
 SPECIFICATION Spec
 CONSTANTS
   MaskUpdated = FALSE
-  MaxOps = 3
+  MaxOps = 12
   MaxRep = 3
-  MaxPool = 3
-  Sizes = {0, 1}
-  MaxParts = 3
-  Fams = {"wf", "dup"}
-  Take = TRUE
-  Linear = FALSE
+  MaxPool = 2
+  Sizes = {1}
+  MaxParts = 1
+  Fams = {"rep"}
+  Take = FALSE
+  Linear = TRUE
   Export = TRUE
 VIEW View
 INVARIANTS OnlyKnownBug
